@@ -48,6 +48,6 @@ def prec():
     handlers = sorted(n[5:] for n in dir(excelformula.FunctionNode)
                       if n.startswith('func_') and callable(getattr(excelformula.FunctionNode, n)))
     body += ('\n/-- the function names with a dedicated emitter `FunctionNode.func_<name>` (dir(FunctionNode), callables) -/\n')
-    body += 'def funcHandlers : List (List Char) := [' + ', '.join(_chars(n) for n in handlers) + ']\n'
+    body += 'def funcHandlerNames : List (List Char) := [' + ', '.join(_chars(n) for n in handlers) + ']\n'
     body += '\nend Pycel.Gen\n'
     return body
